@@ -14,5 +14,5 @@ CFG = {
             "not the leading terminal of one of the non-terminal's own productions; distinct = distinct grammars.",
     "assumptions": ["terminals/non-terminals are modelled as natural numbers; the endmarker is not a terminal of the grammar (as grammar.Endmarker's documentation assumes)",
                     "the three fixpoint loops run on fuel in the model; C10_terminates proves the fuel is never exhausted",
-                    "Go's randomised iteration order is not modelled as an oracle: the theorems characterise the result semantically, hence independently of the order (C10_order_independent)"],
+                    "Go's randomised iteration order is an oracle of the model (one production order per pass and per loop); the theorems hold for every oracle that enumerates exactly the productions, the extracted model runs with the identity oracle, and the harness recomputes every result four times per grammar under Go's real random order"],
 }
